@@ -12,6 +12,11 @@
     [estimate p r] = the documented estimate (price move on the open quantity minus pro-rata
     estimated exit fees) of position [p] at price [r]; [tracks h] = the open position's
     pnl_unrealised equals [estimate] at the reference price.
+    Instrument kind (spot / perpetual / future / option), contract size and settlement asset are
+    NOT inputs of the estimate, neither in the documented formula ("price move on the open
+    quantity minus pro-rata estimated exit fees" at the instrument's price) nor in the code: the
+    model has no such parameters, and the correspondence runs use engines with derivative
+    instruments of contract size 0.001 / 0.01 / 100 so that code scaling by it disagrees.
 
     KNOWN FINDING (class 1, not repaired because position.rs unit tests TC3/TC7 pin it):
     Position::from(&Trade) - a position opened from flat or as the remainder of a flip - stores
